@@ -4,7 +4,6 @@ import (
 	"bytes"
 	"crypto/ed25519"
 	"fmt"
-	"os"
 	"strings"
 
 	g "github.com/zenon-network/go-zenon/chain/genesis/mock"
@@ -58,7 +57,10 @@ func momentumVariants(d *nom.DetailedMomentum, bb bitBounds) []mVariant {
 	addOut("PublicKey", "=user-key", func(m *nom.Momentum) { m.PublicKey = append(ed25519.PublicKey{}, other.Public...) })
 	for _, i := range bb.key {
 		i := i
-		addOut("PublicKey", fmt.Sprintf("^bit%d", i), func(m *nom.Momentum) { m.PublicKey = append(ed25519.PublicKey{}, m.PublicKey...); flipBit(m.PublicKey, i) })
+		addOut("PublicKey", fmt.Sprintf("^bit%d", i), func(m *nom.Momentum) {
+			m.PublicKey = append(ed25519.PublicKey{}, m.PublicKey...)
+			flipBit(m.PublicKey, i)
+		})
 	}
 	addOut("PublicKey", "=empty", func(m *nom.Momentum) { m.PublicKey = nil })
 	addOut("PublicKey", "-lastbyte", func(m *nom.Momentum) { m.PublicKey = append(ed25519.PublicKey{}, m.PublicKey[:31]...) })
@@ -122,8 +124,16 @@ func momentumVariants(d *nom.DetailedMomentum, bb bitBounds) []mVariant {
 	}})
 	if len(m.Content) > 0 {
 		in = append(in, alt{"Content", "-last", func(m *nom.Momentum) { m.Content = append(nom.MomentumContent{}, m.Content[:len(m.Content)-1]...) }})
-		in = append(in, alt{"Content", "[0].Hash^bit0", func(m *nom.Momentum) { c := *m.Content[0]; c.Hash[0] ^= 1; m.Content = append(nom.MomentumContent{&c}, m.Content[1:]...) }})
-		in = append(in, alt{"Content", "[0].Height+1", func(m *nom.Momentum) { c := *m.Content[0]; c.Height++; m.Content = append(nom.MomentumContent{&c}, m.Content[1:]...) }})
+		in = append(in, alt{"Content", "[0].Hash^bit0", func(m *nom.Momentum) {
+			c := *m.Content[0]
+			c.Hash[0] ^= 1
+			m.Content = append(nom.MomentumContent{&c}, m.Content[1:]...)
+		}})
+		in = append(in, alt{"Content", "[0].Height+1", func(m *nom.Momentum) {
+			c := *m.Content[0]
+			c.Height++
+			m.Content = append(nom.MomentumContent{&c}, m.Content[1:]...)
+		}})
 		in = append(in, alt{"Content", "[0].Address=user3", func(m *nom.Momentum) {
 			c := *m.Content[0]
 			c.Address = ops.Users[2].Address
@@ -298,9 +308,6 @@ func exploreMomentum(c *xs.Ctx, r *xs.Result, hi int, rec *prodRec, onlyHeight u
 					r.Violate(key("variant-accepted:follower-store-differs-from-producer"), where+fmt.Sprintf(": accepted (idx=%d err=%v); stored momentum bytes equal: %v; store equal to the producer's: %v", idx, ierr, st != nil && bytes.Equal(serM(st), origBytes), f.FullDigest() == rec.Full[h]), rep)
 				} else {
 					r.Count("momentum_variants_accepted_identical", 1)
-					if os.Getenv("C13_PROBE") == "2" && (strings.HasPrefix(v.Group, "Content") || strings.Contains(v.Group, "plasma-fields")) {
-						r.Note("accepted-identical: %s", where)
-					}
 					r.Add("momentum_outcomes", v.Group+"/"+v.Flavor+":accepted-identical")
 				}
 				fresh()
